@@ -19,13 +19,16 @@ def gen_cases(run, module, cfg, name=None, workers=None, timeout=3000, simulate=
 
 def replay_load(run, cases, trace_module, trace_cfg, build_features=("json",), variant="json", fmt="json",
                 skip_icu=False, tag="", per_case_timeout=20, key_of=None, perm_seed=None, keep_dirs=False,
-                trace_env=None, package="drv_parser", ext=None):
+                trace_env=None, package="drv_parser", ext=None, codegen_fmt=None):
     """cases: list of case dicts; each becomes a project directory parsed with parse_locales.
     A case with a "mode": "value" field is instead sent to ParsedValue::new (field "s")."""
     wd = os.path.join(run.workdir, "load" + tag)
     shutil.rmtree(wd, ignore_errors=True)
     os.makedirs(wd)
-    binary = vp.cargo_build(package, build_features if package == "drv_parser" else (), variant=variant if package == "drv_parser" else None)
+    if package == "drv_codegen" and codegen_fmt:
+        binary = vp.cargo_build(package, ("base", codegen_fmt), variant=codegen_fmt, no_default=True)
+    else:
+        binary = vp.cargo_build(package, build_features if package == "drv_parser" else (), variant=variant if package == "drv_parser" else None)
     if package == "drv_codegen":
         trace_env = dict(trace_env or {})
     rows = []
